@@ -116,7 +116,7 @@ func NewEmptyContact(sa SessionAssets, name string, language i18n.Language, time
 		lastSeenOn: nil,
 		urns:       URNList{},
 		groups:     NewGroupList(sa, nil, assets.IgnoreMissing),
-		fields:     make(FieldValues),
+		fields:     NewFieldValues(sa, nil, assets.IgnoreMissing),
 		ticket:     nil,
 		assets:     sa,
 	}
